@@ -159,7 +159,10 @@ func (fr *frame) runBlocks() {
 			case 2:
 				x.violation("wedge", x.wedgeMsg+fmt.Sprintf(" (loop in %s did not terminate within %d iterations)", fr.fn, x.unwind), nil)
 			}
-			x.end("unwind", fmt.Sprintf("unwinding bound %d exceeded in %s block %d (%s)", x.unwind, fr.fn, b.Index, b.Comment))
+			if schedTrace {
+				fmt.Println("UNWIND-HERE")
+			}
+			x.end("unwind", fmt.Sprintf("unwinding bound %d exceeded in %s block %d (%s); goroutines: %s", x.unwind, fr.fn, b.Index, b.Comment, x.goroutineStates()))
 		}
 		// phis
 		i := 0
